@@ -123,7 +123,10 @@ pub fn check(case: &Case) -> CheckResult {
                 m.decr();
                 attached.remove(&tok);
                 forgotten.remove(&tok);
-                if !can_accept_model && live.len() < case.max_connections * 90 / 100 {
+                // at least one free slot counts as "load dropped": the integer threshold is 0 for max_connections = 1,
+                // where the literal formula would never resume (that was a defect of sozu, repaired in ad2f9a4; the
+                // model had copied the formula and with it the defect)
+                if !can_accept_model && live.len() < (case.max_connections * 90 / 100).max(1) {
                     can_accept_model = true;
                     resumed = true;
                 }
